@@ -1,7 +1,7 @@
 (* PV.C15.Examples — non-vacuity: concrete, non-trivial reachable states meeting the hypotheses of the
    theorems of Properties.v (all computed by running the executable model). *)
 From Coq Require Import List Bool Arith PeanoNat Lia.
-From PV Require Import C15.Model C15.Proofs C15.PathModel C15.PathProofs C15.PathProgress.
+From PV Require Import C15.Model C15.Proofs C15.PathModel C15.PathProofs C15.PathProgress C15.Upgrade C15.Refuted.
 Import ListNotations.
 Local Open Scope nat_scope.
 
@@ -141,4 +141,20 @@ Proof.
   eexists. split; [vm_compute; reflexivity|]. split.
   - eapply (pg_run_preachable_g idp pinit psched2); [apply prg_init|vm_compute; reflexivity|vm_compute; reflexivity].
   - split; [exists 0; vm_compute; discriminate|]. split; vm_compute; reflexivity.
+Qed.
+
+(* the single-upgrader guard is strictly weaker than the no-upgrade guard: the former lost-wake-up schedule (one
+   upgrader) satisfies g1 but not g and reaches a state with an upgrader waiting (hypothesis of
+   deadlock_free_single_upgrader); the mutual-upgrade schedule violates g1 as well *)
+Example single_upgrader_guard :
+  g1_run init lost_wakeup_schedule = true /\ g_run init lost_wakeup_schedule = false /\
+  g1_run init mutual_upgrade_schedule = false /\
+  (exists s, run init [(0, APush sh_rr); (0, AGo); (1, APush sh_rr); (1, AGo); (0, APush ex_rr); (0, AGo)] = Some s /\
+             reachable_g1 s /\ upgraderb s 0 = true /\ stk s 0 = [ExWait true false; ShBody] /\ enabled s 1 = true).
+Proof.
+  repeat split; try (vm_compute; reflexivity).
+  eexists. split; [vm_compute; reflexivity|]. split.
+  - eapply (g1_run_reachable init [(0, APush sh_rr); (0, AGo); (1, APush sh_rr); (1, AGo); (0, APush ex_rr); (0, AGo)]);
+      [constructor|vm_compute; reflexivity|vm_compute; reflexivity].
+  - repeat split; vm_compute; reflexivity.
 Qed.
